@@ -358,28 +358,59 @@ def _nr_sites(run):
     return nr, sites
 
 
-def _list_of_strs(fi, expr):
+def _static_seq(fi, expr, depth=0):
+    """element expressions of a sequence written as a display, a concatenation of displays, list(...) / tuple(...) of one, a
+    starred splice, or a local name bound once to such an expression (None when it is none of these)"""
+    if depth > 6:
+        return None
     if isinstance(expr, ast.Name):
         asg = assignments(fi.node, expr.id)
         if len(asg) != 1 or asg[0][2] is not None:
-            raise AnalysisError("%s in %s is not bound by exactly one plain assignment" % (expr.id, fi.qualname))
-        expr = asg[0][1]
-    if isinstance(expr, (ast.List, ast.Tuple)) and all(const_str(e) is not None for e in expr.elts):
-        return [e.value for e in expr.elts]
+            return None
+        return _static_seq(fi, asg[0][1], depth + 1)
+    if isinstance(expr, (ast.List, ast.Tuple)):
+        out = []
+        for e in expr.elts:
+            if isinstance(e, ast.Starred):
+                sub = _static_seq(fi, e.value, depth + 1)
+                if sub is None:
+                    return None
+                out.extend(sub)
+            else:
+                out.append(e)
+        return out
+    if isinstance(expr, ast.BinOp) and isinstance(expr.op, ast.Add):
+        a, b = _static_seq(fi, expr.left, depth + 1), _static_seq(fi, expr.right, depth + 1)
+        return None if a is None or b is None else a + b
+    if isinstance(expr, ast.Call) and callee_name(expr) in ("list", "tuple") and len(expr.args) == 1 and not expr.keywords:
+        return _static_seq(fi, expr.args[0], depth + 1)
+    return None
+
+
+def _list_of_strs(fi, expr):
+    seq = _static_seq(fi, expr)
+    if seq is not None and all(const_str(e) is not None for e in seq):
+        return [e.value for e in seq]
     raise AnalysisError("expected a literal list of strings, got %s in %s" % (U(expr), fi.qualname))
 
 
 def _tol_options(fi, expr):
     """tols argument -> list of option names each tolerance was read from"""
-    if isinstance(expr, ast.Name):
-        asg = assignments(fi.node, expr.id)
-        if len(asg) != 1:
-            raise AnalysisError("tols %s not uniquely bound" % expr.id)
-        expr = asg[0][1]
-    if not isinstance(expr, (ast.List, ast.Tuple)):
+    seq = _static_seq(fi, expr)
+    if seq is None:
+        # all tolerances read at once: list(get_net_options(net, "tol_m", "tol_p", ...)) gives the options in argument order
+        e0 = expr
+        if isinstance(e0, ast.Name):
+            asg = assignments(fi.node, e0.id)
+            e0 = asg[0][1] if len(asg) == 1 and asg[0][2] is None else e0
+        while isinstance(e0, ast.Call) and callee_name(e0) in ("list", "tuple") and len(e0.args) == 1:
+            e0 = e0.args[0]
+        if isinstance(e0, ast.Call) and callee_name(e0) == "get_net_options" and not e0.keywords \
+                and all(const_str(a) is not None for a in e0.args[1:]):
+            return [const_str(a) for a in e0.args[1:]]
         raise AnalysisError("tols is not a list display: %s" % U(expr))
     out = []
-    for e in expr.elts:
+    for e in seq:
         if not isinstance(e, ast.Name):
             raise AnalysisError("tolerance entry %s is not a local name" % U(e))
         asg = assignments(fi.node, e.id)
@@ -448,20 +479,37 @@ EXPECTED_TOL = {"mdot": "tol_m", "mdotslack": "tol_m", "p": "tol_p", "t": "tol_T
 
 
 def _column_name_expr(ix):
-    """the expression finalize_iteration uses to find a variable's column: globals()[<expr>]"""
+    """how finalize_iteration finds the pit column of a solver variable: `globals()[<expr of the variable>]` or a lookup in a
+    table `{<name>: <COLUMN>, ...}[<expr of the variable>]` (a module-level dict, substituted at its use).
+    Returns (resolve, variable name) with resolve(v) -> (column name, defining idx module, attribute) for the solver variable v"""
     fin = ix.func(P + ".finalize_iteration")
-    exprs = set()
-    loopvar = None
+    pmod = ix.module(P)
+    found = []
     for n in ast.walk(fin.node):
         if isinstance(n, ast.Subscript) and isinstance(n.value, ast.Call) and U(n.value.func) == "globals":
-            exprs.add(U(n.slice))
-            node = n.slice
-    if len(exprs) != 1:
-        raise AnalysisError("finalize_iteration: expected one globals()[...] column expression, found %s" % sorted(exprs))
+            found.append(("globals", n.slice, None))
+        elif isinstance(n, ast.Subscript) and isinstance(n.value, ast.Dict) and n.value.keys and all(const_str(k) is not None for k in n.value.keys) \
+                and all(isinstance(v, ast.Name) for v in n.value.values):
+            found.append(("table", n.slice, {const_str(k): v.id for k, v in zip(n.value.keys, n.value.values)}))
+    forms = {(k, U(sl)) for k, sl, _ in found}
+    if len(forms) != 1:
+        raise AnalysisError("finalize_iteration: expected one globals()[...] / table[...] column expression, found %s" % sorted(forms))
+    kind, node, table = found[0]
     names = [x.id for x in ast.walk(node) if isinstance(x, ast.Name)]
     if len(set(names)) != 1:
         raise AnalysisError("column expression %s does not depend on exactly one variable" % U(node))
-    return node, names[0]
+
+    def resolve(v):
+        k = eval_str_expr(node, {names[0]: v})
+        cname = k if kind == "globals" else table.get(k)
+        if cname is None:
+            return "%s[%r]" % ("table", k), None, None
+        imp = pmod.imports.get(cname)
+        if imp is None:
+            imp = ix.func_imports(fin).get(cname)
+        ok = imp is not None and imp[0] == "attr" and imp[1] in ("pandapipes.idx_branch", "pandapipes.idx_node")
+        return cname, (imp[1] if ok else None), (imp[2] if ok else None)
+    return resolve, names[0]
 
 
 def _solve_results(ix, g, depth=0):
@@ -564,11 +612,10 @@ def r5_5(run):
                "one pit name per solver variable (%d vs %d)" % (len(pits), len(svars)), w)
         cols = []
         for i, v in enumerate(svars):
-            cname = eval_str_expr(col_expr, {col_var: v})
-            imp = pmod.imports.get(cname)
-            ok = imp is not None and imp[0] == "attr" and imp[1] in ("pandapipes.idx_branch", "pandapipes.idx_node")
-            ns = imp[1].rsplit("_", 1)[1] if ok else None
-            cols.append((cname, imp[1] if ok else None, imp[2] if ok else None))
+            cname, cmod_, cattr_ = col_expr(v)
+            ok = cmod_ is not None
+            ns = cmod_.rsplit("_", 1)[1] if ok else None
+            cols.append((cname, cmod_, cattr_))
             run.ob("%s|column-resolves|%s" % (stage, v), ok,
                    "column name %s resolves in pipeflow's globals to an idx constant" % cname, w)
             if ok and i < len(pits):
@@ -856,9 +903,30 @@ class VerdictOracle(Oracle):
         return Oracle.compare(self, op, a, b)
 
 
+def _some_solver_vars(ix, k):
+    """k distinct solver variable names that a stage really registers (the column of a variable may be looked up in a table that
+    knows only those), made-up names when no stage has that many"""
+    cache = getattr(ix, "_c05_svars", None)
+    if cache is None:
+        cache = []
+        nr = ix.func(P + ".newton_raphson")
+        for f in ix.module(P).functions.values():
+            for c in calls(f.node, "newton_raphson"):
+                if isinstance(c.func, ast.Name):
+                    try:
+                        names = _list_of_strs(f, bind_args(nr, c)["solver_vars"])
+                    except (AnalysisError, KeyError):
+                        continue
+                    for n_ in names:
+                        if n_ not in cache:
+                            cache.append(n_)
+        ix._c05_svars = cache
+    return list(cache[:k]) if len(cache) >= k else ["v%d" % i for i in range(k)]
+
+
 def _run_finalize(ix, k, method, alpha0, ecls, rcls, inc):
     fin = ix.func(P + ".finalize_iteration")
-    svars = ["v%d" % i for i in range(k)]
+    svars = _some_solver_vars(ix, k)
     it = Interp(ix, VerdictOracle(ecls, rcls, inc))
     net = ANet()
     net["_options"] = {"alpha": alpha0}
@@ -965,6 +1033,8 @@ def r5_7(run):
     k = 3
     ok_all, detail = True, None
     seen_store = 0
+    col_of, _cv = _column_name_expr(ix)
+    svars3 = _some_solver_vars(ix, k)
     for inc in itertools.product((False, True), repeat=k):
         conv, alpha1, stores = _run_finalize(ix, k, "automatic", 1.0, ("LT",) * k, "LT", inc)
         want = []
@@ -982,6 +1052,10 @@ def r5_7(run):
                     (isinstance(rows, Tok) and rows.name == "rows_%d" % i)
                 col = key[1] if isinstance(key, tuple) and len(key) == 2 else None
                 col_ok = isinstance(col, Opaque)
+                if not col_ok and i is not None and isinstance(col, int) and not isinstance(col, bool):
+                    # the column was found in a table of constants: it must be the column of variable i
+                    _cn, cm_, ca_ = col_of(svars3[i])
+                    col_ok = cm_ is not None and ix.try_const(cm_, ca_) == col
                 if not (pit_ok and rows_ok and col_ok):
                     ok_all = False
                     detail = "store %s[%s] = %s under increased=%s" % (path, key, val, inc)
